@@ -221,8 +221,13 @@ DevPositronBremSlow(r) ==
 \* incident direction that close to the z axis with a negative y component every sampled
 \* exiting direction (ExitingDirectionSampler) is rotated about the mirrored axis, so the
 \* scattering angle is off by up to 2 sin(theta_rot) and momentum is not conserved.
+\* (Repaired in /repo by 1ce46c5; the disjunct stays so that a recurrence is named -- and,
+\* having no known-finding entry, is a VIOLATION.)  Not in scope when the sample is already
+\* fully explained by F-PHYS-1 or when a direction is NaN (rotate never produces NaN).
 DevRotateNearPole(r) ==
-  r.rk.sinth > r.rk.zero /\ r.rk.sinth < r.rk.sinthmin /\ ~r.ypos
+  /\ r.rk.sinth > r.rk.zero /\ r.rk.sinth < r.rk.sinthmin /\ ~r.ypos
+  /\ ~DevEPlusGG(r)
+  /\ r.out.dfin /\ \A k \in DOMAIN r.secs : r.secs[k].dfin
 
 Deviations(r) ==
   (IF ~r.aborted /\ DevEPlusGG(r)
